@@ -508,7 +508,7 @@ func PoolTypestate(p *load.Program, rel string, res *report.RuleResult) {
 	if decided {
 		res.Count("requests-evaluated", scenarios)
 		res.Check(len(probs) == 0, key+"/evaluated", p.Pos(get.Pos()), "Pool.Get",
-			fmt.Sprintf("on %d requests (block sizes 1-8, 16 and the sizes the constructor is called with; 2*size+3 requests each, across two block boundaries) every result is a zeroed element no earlier request returned", scenarios),
+			fmt.Sprintf("on %d requests (block sizes 1-8, 16 and the sizes the constructor is called with, 2*size+3 requests each, across two block boundaries; in the thorough tier every size up to 64 and the powers of two up to 4096 with their neighbours, four boundaries) every result is a zeroed element no earlier request returned", scenarios),
 			strings.Join(probs, "; "))
 	}
 	if open > 0 && decided && len(probs) == 0 {
